@@ -43,6 +43,10 @@ def declined(cm, src):
                         prefs = {re.match(r"^[A-Za-z]*", s_).group(0).lower() for s_ in seg}
                         if len(prefs) > 1: return "mixed-string-prefixes"
                         if any(not isinstance(l, (ast.Constant, ast.Name)) for l in leaves): return "operand-type-not-inferable"
+                        # a name operand that is bound more than once in the file (re-assigned, a loop variable, rebound under `global`): its type is not what one assignment says
+                        stores = collections.Counter(x.id for x in ast.walk(t) if isinstance(x, ast.Name) and isinstance(x.ctx, ast.Store))
+                        globals_ = {g for x in ast.walk(t) if isinstance(x, (ast.Global, ast.Nonlocal)) for g in x.names}
+                        if any(isinstance(l, ast.Name) and (stores[l.id] != 1 or l.id in globals_) for l in leaves): return "operand-type-not-inferable"
                         if any(isinstance(l, ast.Constant) and isinstance(l.value, str) and "%" in l.value for l in leaves): return "percent-in-literal"
     return None
 
